@@ -853,9 +853,8 @@ func checkC09(c any) *ev.Verdict {
 			if whole.OK() {
 				return v.Failf("prefix-fails", "statements 1..%d alone fail (%s) but the whole script succeeds: %s", k, first.Summary(), whole.Summary())
 			}
-			if whole.ErrClass != first.ErrClass {
-				return v.Failf("class", "statements 1..%d fail with %s, the whole script with %s", k, first.ErrClass, whole.ErrClass)
-			}
+			// which error the whole script reports when several statements are wrong is not
+			// part of the property
 			return v
 		}
 		// postings of statement k = first.Postings[donePostings:]
@@ -918,9 +917,6 @@ func checkC09(c any) *ev.Verdict {
 			// whole fails and the first part succeeded: the second part must fail with the same class
 			if second.OK() {
 				return v.Failf("whole-fails", "split at %d: the whole script fails (%s) but both parts succeed", k, whole.Summary())
-			}
-			if second.ErrClass != whole.ErrClass {
-				return v.Failf("class", "split at %d: whole fails with %s, second part with %s", k, whole.ErrClass, second.ErrClass)
 			}
 		}
 		// non-trivial: does the second part depend on the first?
